@@ -3,7 +3,7 @@ import time
 
 import numpy as np
 
-from .. import api, gen, refmodel, resultcheck
+from .. import api, gen, refmodel, resultcheck, planwork
 
 ID = "C09"
 LEVEL = "exploration"
@@ -25,7 +25,7 @@ MIN_NONTRIVIAL = {"quick": 150, "thorough": 2500}
 JOBS = {"quick": 8, "thorough": 16}
 
 
-def shards(tier, seed):
+def _base_shards(tier, seed):
     if tier == "quick":
         n_sh, n, budget, nmax = 8, 110, 50, 8000
     else:
@@ -229,6 +229,10 @@ def many_segments_case(rec, seedt):
 
 
 def run_shard(params, rec):
+    if params.get("kind") == "repo-tests":
+        # thorough tier: the repository's own tests as a workload, every result they produce
+        # checked by this property's result-level monitor (speckit_verif.pytest_plugin)
+        return planwork.run_repo_tests(ID, rec, tests=planwork.RESULT_TESTS)
     t0 = time.time()
     for i in range(max(2, params["n"] // 12)):
         many_segments_case(rec, [params["seed"], params["shard"], "many", i])
@@ -243,3 +247,11 @@ def replay(case, rec):
     if case.get("kind") == "many-segments":
         return many_segments_case(rec, case["seed"])
     one_case(rec, case["seed"], case.get("nmax", 8000))
+
+
+def shards(tier, seed):
+    out = list(_base_shards(tier, seed))
+    if tier == "thorough":
+        out.append({"name": "repo-tests", "threads": 4, "timeout": 2400,
+                    "params": {"kind": "repo-tests"}})
+    return out
